@@ -12,7 +12,7 @@ CASES = [
     ('optCount', ['Bitfield'], dict(Fuel=1, Peers='{a, b}', NPieces=1, NBlocks='N1', MaxUnchoked=1, BFMenu='{{1}}'), ['SlotBound']),
     ('replyUnchoke', ['Bitfield'], dict(Fuel=2, Peers='{a}', NPieces=1, NBlocks='N1', TickFuel=1, MaxUnchoked=1, BFMenu='{{1}}', Rates='{0}'), ['ViewAgreement']),
     ('cacheAfterChoke', ['Bitfield', 'Request'], dict(Fuel=4, Peers='{a}', NPieces=2, NBlocks='N1x2', Own0='{1}', TickFuel=1, BFMenu='{{2}}', Rates='{0}'), ['C09Step', 'NoCacheWhileChoked']),
-    ('dupAccept', ['Unchoke', 'Bitfield', 'Piece'], dict(Fuel=3, Peers='{a}', NPieces=1, NBlocks='N1', ConnFuel=2, BFMenu='{{1}}'), ['ReservedBacked', 'NoPanic']),
+    ('dupAccept', ['Unchoke', 'Bitfield', 'Piece'], dict(Fuel=3, Peers='{a}', NPieces=1, NBlocks='N1', ConnFuel=2, BFMenu='{{1}}'), ['ReservedBacked', 'NoPanic', 'ViewAgreement']),
     ('preHandshake', ['Bitfield', 'Handshake'], dict(Fuel=2, Peers='{a}', HS0='FALSE', BFMenu='{{1, 2}}'), ['C08Step']),
 ]
 ok = True
@@ -31,5 +31,22 @@ for bug, kinds, over, want in CASES:
     if viol:
         ok = False
         print('%-16s repaired design VIOLATES %s' % (bug, viol))
+# liveness: with the release of a piece kept silent (as found) the honest swarm without end game never completes
+import os
+from common import run_tlc, outdir
+cfg = os.path.join(outdir('SENS'), 'live_silent.cfg')
+open(cfg, 'w').write('SPECIFICATION LSpec\nCONSTANTS\n  Peers = {"a", "b"}\n  NPieces = 2\n  NBlocks <- N1x2\n  EndGame = 1\n  MaxUnchoked = 1\n  OptRounds = 3\n'
+                     '  KALimit = 2\n  Pipeline = {2}\n  Rates = {0}\n  FrameKinds = {}\n  BFMenu = {}\n  Own0 = {}\n  Bugs = {"silentRelease"}\n  HS0 = FALSE\n  Has <- HasQ\n  Leavers = {"b"}\n'
+                     'INVARIANTS NoDeadEnd\nPROPERTIES EventuallyComplete\nCHECK_DEADLOCK FALSE\n')
+r = run_tlc('MC_SwarmLive', cfg, 'SENS', workers=8, timeout=600, tag='livesilent', xmx='8g')
+good = r['violation'] and 'EventuallyComplete' in r['stdout']
+ok &= bool(good)
+print('%-16s -> %s (liveness, %d states) %s' % ('silentRelease', 'EventuallyComplete violated' if good else 'nothing', r.get('distinct', 0), 'ok' if good else 'NOT REPORTED'))
+txt = open(cfg).read().replace('{"silentRelease"}', '{}')
+open(cfg, 'w').write(txt)
+r = run_tlc('MC_SwarmLive', cfg, 'SENS', workers=8, timeout=600, tag='livesilent', xmx='8g')
+if r['violation']:
+    ok = False
+    print('silentRelease    repaired design VIOLATES liveness')
 print('spec sensitivity:', 'all defects reported, repaired design clean' if ok else 'FAILED')
 sys.exit(0 if ok else 1)
